@@ -98,6 +98,43 @@ def run(ctx):
     lam = [n for n in A.walk_local(ah.node) if isinstance(n, ast.Lambda)]
     ok = bool(lam) and "msg.command in commands" in A.norm(lam[0]) and "msg_filter is None" in A.norm(lam[0])
     ctx.ob("C32.D3-first-matching-handler", cname(ah, None, "predicate = command matches and filter accepts"), ok, "" if ok else "predicate changed", where=where(ah, ah.node))
+    # a single command name is matched by equality, not as a substring: where `commands` is a str it is wrapped in a collection before the
+    # predicate `msg.command in commands` closes over it ('stage' in 'unstage' is True)
+    gah = q.cfg(ah, q.quiet_policy(repo))
+
+    def wraps(val):
+        return isinstance(val, (ast.List, ast.Tuple, ast.Set)) and len(val.elts) == 1 and A.norm(val.elts[0]) == "commands"
+
+    def wraps_when_str(val):  # `[commands] if isinstance(commands, str) else <anything>` (or the mirrored test)
+        return isinstance(val, ast.IfExp) and ((A.norm(val.test) == "isinstance(commands, str)" and wraps(val.body))
+                                               or (A.norm(val.test) == "not isinstance(commands, str)" and wraps(val.orelse)))
+    ins_stmt = [s for s in A.walk_stmts(ah.node.body) if A.find_calls(s, "self.message_handlers.insert")]
+    wrapped = None
+    if ins_stmt and gah.nodes_of(ins_stmt[0]):
+        nid = gah.nodes_of(ins_stmt[0])[0]
+        wrapped = True
+        seen_any = False
+        for kind, val, dn in q.reaching_defs(gah, nid, "commands"):
+            is_wrap = kind == "assign" and wraps(val)
+            under_str = dn is not None and q.guard_true_dominates(gah, dn.stmt, lambda t: A.norm(t) == "isinstance(commands, str)", "T") is None
+            if (is_wrap and under_str) or (kind == "assign" and wraps_when_str(val)):
+                seen_any = True
+        # the str case must not reach the insert unwrapped: cut the wrapping definitions and the non-str edge, the insert must become unreachable
+        def edge_ok(u, v, lab):
+            n = gah.nodes[u]
+            if n.kind == "test" and A.norm(n.ast) == "isinstance(commands, str)" and lab == "F":
+                return False
+            if n.kind == "test" and A.norm(n.ast) == "not isinstance(commands, str)" and lab == "T":
+                return False
+            return True
+        def is_wrap_node(n):
+            d = q._node_defs(n, "commands")
+            return d is not None and d[0] == "assign" and (wraps(d[1]) or wraps_when_str(d[1]))
+        reach = gah.reachable([gah.entry], avoid=is_wrap_node, edge_ok=edge_ok)
+        wrapped = seen_any and nid not in reach
+    ctx.ob("C32.D3-first-matching-handler", cname(ah, None, "a single command name is wrapped in a collection before it is matched with `in`"), bool(wrapped),
+           "" if wrapped else "a command given as one string reaches `msg.command in commands` as a string: the test is a substring test, and a handler for 'unstage' "
+           "(wait_for, clear_checkpoint, unmonitor, unsubscribe) also answers 'stage' (wait, checkpoint, monitor, subscribe) messages", nontrivial=True, where=where(ah, ah.node))
     # D4
     hs = [h for s in A.walk_stmts(f.node.body) if isinstance(s, ast.Try) for h in s.handlers if h.type is not None and A.norm(h.type) == "StopIteration" and h.name]
     ok = bool(hs) and [A.norm(x) for x in hs[0].body] == [f"self.return_value = {hs[0].name}.value"]
@@ -147,6 +184,10 @@ CLAIM = {
 
 F = "simulators.py"
 MUTANTS = [
+    ("a single command name stays a string (seed C32-c)",
+     [("simulators.py", "        if isinstance(commands, str):\n            commands = [commands]\n", "        if not isinstance(commands, str):\n            commands = tuple(commands)\n")], "C32.D3"),
+    ("the wrap is applied to non-strings",
+     [("simulators.py", "        if isinstance(commands, str):\n            commands = [commands]\n", "        if not isinstance(commands, str):\n            commands = [commands]\n")], "C32.D3"),
     ("send_value not reset", [(F, "            while msg := gen.send(send_value):\n                send_value = None\n", "            while msg := gen.send(send_value):\n")], "C32.D1"),
     ("handlers appended by default", [(F, "        index: Union[int, Literal[\"end\"]] = 0,", "        index: Union[int, Literal[\"end\"]] = \"end\",")], "C32.D3"),
     ("last matching handler wins", [(F, "next((h for h in self.message_handlers if h.predicate(msg)), None)", "next((h for h in reversed(self.message_handlers) if h.predicate(msg)), None)")], "C32.D3"),
@@ -157,5 +198,6 @@ MUTANTS = [
     ("check only the first set per device", [(F, "            if isinstance(obj, Checkable):\n                await maybe_await(obj.check_value(msg.args[0]))", "            if isinstance(obj, Checkable):\n                await maybe_await(obj.check_value(msg.args[0]))\n                ignore.append(obj)")], "C32.D5"),
 ]
 BENIGN = [
+    ("single name wrapped by a conditional expression", [("simulators.py", "        if isinstance(commands, str):\n            commands = [commands]\n", "        commands = (commands,) if isinstance(commands, str) else tuple(commands)\n")]),
     ("send logging moved into the handler branch", [("simulators.py", "                    send_value = handler.runnable(msg)\n\n                if send_value:\n                    LOGGER.debug(f\">send {send_value}\")", "                    send_value = handler.runnable(msg)\n                    LOGGER.debug(\">send %s\", send_value)")]),
 ]
